@@ -268,11 +268,18 @@ pub fn case(t: &mut Tape, ctx: &CaseCtx) -> CaseResult {
         if t.chance(1, 4) {
             s.storage_init.push(("server_dictated_poll_interval".into(), SVal::I(*t.pick(&[0i64, 1, 5_000_000, 86_400_000_000]))));
         }
+        if t.chance(1, 4) {
+            // the embedder switches channel while the machine sits in a wait (a backoff, typically)
+            s.embedder_changes_apps_at_wait = Some(1 + t.choose(4));
+        }
         (s, lives)
     };
     let h = run_history(script, &lives);
     let (nontrivial, mut classes) = check_history(&h)?;
     classes.push(if mode == 0 { "mode_enumerated_alphabet" } else { "mode_random" });
+    if h.log.iter().any(|o| matches!(o, Op::EmbedderChangedApps)) {
+        classes.push("embedder_changed_apps_during_a_wait");
+    }
     Ok(CaseReport {
         key: hash_of(&format!("{:?}{:?}", h.script, lives)),
         nontrivial,
